@@ -10,9 +10,8 @@
 #include <chrono>
 #include <fcntl.h>
 
-#ifndef FLAVOUR
-#define FLAVOUR "tsanhook"
-#endif
+static std::string g_flavour = "tsanhook";
+#define FLAVOUR (g_flavour.c_str())
 extern char __data_start, _end, __executable_start;
 
 Probes g_probes; Coverage g_cover; SpecSkinny g_spec;   // (interp.cpp is not linked into thrsim)
@@ -356,6 +355,7 @@ int main(int argc, char **argv) {
         else if (a == "--fingerprints") want_fp = true; else if (a == "--prop") nxt();
     }
     disable_aslr_and_reexec(argv);
+    { char buf[4096]; ssize_t n = readlink("/proc/self/exe", buf, sizeof buf - 1); if (n > 0) { buf[n] = 0; std::string e(buf); size_t b = e.rfind('/'); if (b != std::string::npos && b > 0) { size_t a = e.rfind('/', b - 1); if (a != std::string::npos) g_flavour = e.substr(a + 1, b - a - 1); } } }
     seams_init();
     g_exe_base = (uintptr_t)&__executable_start;   // image base for pc offsets
     g_caller_mem = (uint8_t *)mmap((void *)0x200060000000ULL, 16u << 20, PROT_READ | PROT_WRITE, MAP_PRIVATE | MAP_ANONYMOUS | MAP_FIXED_NOREPLACE, -1, 0);
